@@ -15,6 +15,7 @@ var commands = map[string]func([]string){
 	"c10": runC10,
 	"c11": runC11,
 	"c12": runC12,
+	"c13": runC13,
 	"c14": runC14,
 	"c15": runC15,
 	"c16": runC16,
